@@ -104,7 +104,7 @@ class Node(object):
                 cur = c
                 for _ in range(r2.randint(1, 5)):
                     try:
-                        new = bytecode.insert_extended_arg(cur, bytecode.parse(cur.co_code), r2, only_jumps=True, max_units=6)
+                        new = bytecode.insert_extended_arg(cur, bytecode.parse(cur.co_code), r2, only_jumps=True, max_units=6, prefer_noline=True)
                     except Exception:
                         new = None
                     if new is None or not bytecode.same_program(cur, new):
